@@ -1,3 +1,4 @@
+-- regenerated from /repo by bin/vcore.py (consts group "security"); do not edit
 namespace Emitter.Generated
 def secAllowAll : UInt8 := 254
 def secAllowExecute : UInt8 := 128
